@@ -71,6 +71,13 @@ func All() []*Instance {
 	l = append(l,
 		h4([]string{"newscanner-scansql"}, []string{"newscanner-scansql"}),
 		h4([]string{"newscanner-scan"}, []string{"newscanner-scansql"}),
+		h4([]string{"literalscanner-scansql-rich"}, []string{"newscanner-scansql-rich"}),
+		h4([]string{"literalscanner-scansql-rich"}, []string{"literalscanner-scansql-rich"}),
+		h4([]string{"newscanner-scansql-rich"}, []string{"newscanner-scansql-rich"}),
+		h4([]string{"literalscanner-scansql"}, []string{"newscanner-scansql"}),
+		h4([]string{"literalscanner-scansql"}, []string{"literalscanner-scansql"}),
+		h4([]string{"literalscanner-scan"}, []string{"newscanner-scan"}),
+		h4([]string{"literalscanner-scansql"}, []string{"newscanner-scan", "newscanner-scansql"}),
 		h4([]string{"suggest-SELCT"}, []string{"suggest-SELCT"}),
 		h4([]string{"suggest-SELCT"}, []string{"suggest-FORM", "suggest-SELCT"}),
 		h4([]string{"validate-typo"}, []string{"suggest-SELCT", "parse-bad"}),
